@@ -112,6 +112,16 @@ iface("a1", "SE", 4, "basic", [
  ("[ROOT]:[SUB]:LEAF", "sync", "-", "unit"),
 ])
 
+# ---- an interface declared on a generic struct (name starts with `g`: see gen_ifaces.py) ------------
+iface("g1", "SE", 3, "basic", [
+ ("*IDN?", "async", "-", "const:str:" + hx("GENERIC")),
+ ("CONFigure:[VOLTage]:RANGe", "async", "f32", "unit"),
+ ("CONFigure:[VOLTage]:RANGe?", "sync", "-", "const:f32:0x41200000"),
+ ("ECHO?", "async", "str", "echo"),
+ ("BLOCk?", "async", "bytes", "echo"),
+ ("FAIL", "sync", "-", "err:-240"),
+])
+
 # ---- seeded random declaration sets ----------------------------------------
 POOL = ["SYSTem", "MEASure", "VOLTage", "CURRent", "CONFigure", "OUTPut", "STATe", "DC", "AC",
         "aBc", "D_1e", "X1", "CH2a", "TeST", "RANGe", "A", "B", "LEVel", "TRIGger", "SOURce",
